@@ -79,7 +79,8 @@ def replay(rep, path):
            'opaqueM': ['O', 'Possibility', [['A', 0, 0]]],
            'selfid': ['P', [-1, 0, 2], [['c', 0, 0], ['c', 0, 0]]],
            'ident': ['P', [-1, 0, 2], [['c', 0, 0], ['c', 1, 0]]],
-           'exist': ['P', [-2, 0, 1], [['c', 0, 0]]]}
+           'exist': ['P', [-2, 0, 1], [['c', 0, 0]]],
+           'identsub': ['P', [-1, 0, 2], [['c', 0, 0], ['c', 0, 1]]], 'existsub': ['P', [-2, 0, 1], [['c', 0, 1]]]}
     case['s'] = gen[case['kind']]
     cases = d / 'one.ndjson'
     C.write_ndjson(cases, [case])
